@@ -257,6 +257,10 @@ def run(ctx):
     from .c04 import check_framing
 
     report.share(ctx, "C20.T3", check_framing)
+    # "reach communication again after disable/enable": the select handshake answers before it changes state (C05.P1)
+    from .c05 import check_control
+
+    report.share(ctx, "C20.T3", check_control, only={"C05.P3"})
     classes = check_coverage(ctx)
     check_member_reads(ctx, classes)
     check_roles(ctx)
